@@ -109,12 +109,11 @@ def obligations(tier):
                 for epi in (0, 1):
                     add([a, b], kind=0, epi=epi)
         for kind in (1, 2):
-            for a in ("ADD", "ACTIVE"):
-                for b in A:
-                    add([a, b], kind=kind, epi=0)
+            for b in ("FREE", "FINALIZE", "FREE_FINALIZE", "DEL"):
+                add(["ADD", b], kind=kind, epi=0)
+                add(["ACTIVE", b], kind=kind, epi=0)
         for cbact in ("FREE_SELF", "FREE_FINALIZE_SELF", "FINALIZE_SELF", "DEL_SELF", "FREE_B", "REACTIVATE"):
             for kind in (0, 1):
                 for c in ("LOOP", "FREE", "FINALIZE", "DEL", "NOP"):
-                    for epi in (0, 1):
-                        add(["ADD", "ACTIVE", c], kind=kind, cbact=cbact, epi=epi)
+                    add(["ADD", "ACTIVE", c], kind=kind, cbact=cbact, epi=0 if c != "NOP" else 1)
     return obs
